@@ -217,10 +217,10 @@ CHECKS = {
    text="TLC checks on Funnel.tla that what escapes the layered exception handlers is an InvalidDefinitionError with a path "
         "exactly for raise sites of the InvalidDefinition family, and enumerates every single token mutation (and adjacent "
         "double mutations) of three seed definitions over a 116-entry vocabulary (incl. references to six faulty dependencies, one per class of fault, whose file the error must then name). Every mutated text, every state of Expr.tla's "
-        "operator x operand-kind grid in five expression contexts, 55 corner texts (incl. nesting of 45..400 levels and chains of 3 000 operators), seeded "
+        "operator x operand-kind grid in five expression contexts, 65 corner texts (incl. nesting of 45..400 levels and chains of 3 000 operators), seeded "
         "character noise, 31 file-name shapes and 6 duplicate file sets are read: model or InvalidDefinitionError with path; the "
         "recorded chain of exception conversions of every rejected mutation is validated by TLC (TraceFunnel.tla).",
-   note="Known finding F10 (4300-digit rendering limit) is matched by its cause. Unbounded power towers are excluded "
+   note="Known findings F10 / F10b (4300-digit limit of int<->str) are matched by the site that meets the limit (Rational.__str__ / the decimal literal visitor); the limit met elsewhere is reported. Unbounded power towers are excluded "
         "(bounded magnitude); all Unicode strings are sampled. Nesting is not bounded any more (F19 fixed: 45..400 levels, chains of "
         "3 000 operators are corner texts); every file-name shape is also a read_files target under five designations (F21 fixed).",
    technique="TLA+ propagation model checked by TLC; TLC-enumerated token mutations and harness noise read by pydsdl",
